@@ -43,6 +43,9 @@ Definition draw_ok (d : draw cand) : Prop :=
   end.
 Definition script_ok (s : mstate cand) : Prop := Forall draw_ok (scr s).
 
+(* the script left in s' is what remains of the script of s after some draws were consumed *)
+Definition scr_suffix (s s' : mstate cand) : Prop := exists pre, scr s = pre ++ scr s'.
+
 (* ---------- tallies and the state that belongs to a profile ---------- *)
 
 (* current first-place tally of c: summed weight of the ballots led by c *)
@@ -105,6 +108,63 @@ Definition eliminated_in (st : estate) : cset := flat cand (real_groups cand (el
 (* candidates elected / eliminated in any of the states of a list *)
 Definition all_elected (sts : list estate) : cset := concat (map elected_in sts).
 Definition all_eliminated (sts : list estate) : cset := concat (map eliminated_in sts).
+
+(* ---------- a legal round of the documented count (C02) ---------- *)
+
+(* candidate c of p reaches the threshold / has the largest / the smallest current tally *)
+Definition reaches (t : Q) (p : profile) (c : cand) : Prop :=
+  In c (cands p) /\ t <= tally c (ballots p).
+Definition max_tally (p : profile) (c : cand) : Prop :=
+  In c (cands p) /\ forall c', In c' (cands p) -> tally c' (ballots p) <= tally c (ballots p).
+Definition min_tally (p : profile) (c : cand) : Prop :=
+  In c (cands p) /\ forall c', In c' (cands p) -> tally c (ballots p) <= tally c' (ballots p).
+(* g lists exactly the candidates of p whose tally equals that of c *)
+Definition tied_with (p : profile) (c : cand) (g : cset) : Prop :=
+  forall c', In c' g <-> In c' (cands p) /\ tally c' (ballots p) == tally c (ballots p).
+(* l is in order of non-increasing first-place tally in profile q *)
+Definition sorted_by_tally (q : profile) (l : list cand) : Prop :=
+  forall pre a mid b post, l = pre ++ a :: mid ++ b :: post ->
+    tally b (ballots q) <= tally a (ballots q).
+
+(* (E) somebody reaches the threshold: simultaneous mode elects exactly those who do, as the
+   leading groups of the previous ranking (so grouped and ordered by decreasing tally); one-by-one
+   mode elects one candidate of maximal tally, a shared maximum only through a recorded tie-break
+   whose first candidate is the winner *)
+Definition elect_case (cfg : stv_cfg) (t : Q) (p : profile) (prev st : estate) (np : profile) : Prop :=
+  (exists c, reaches t p c) /\ eliminated st = [[]] /\
+  flat cand (elected st) <> [] /\ NoDup (flat cand (elected st)) /\
+  (forall w, In w (flat cand (elected st)) -> reaches t p w) /\
+  cands np = set_diff cand ceqb (cands p) (flat cand (elected st)) /\
+  (if s_simul cfg
+   then (forall c, reaches t p c -> In c (flat cand (elected st))) /\ tiebreaks st = [] /\
+        exists rest, remaining prev = elected st ++ rest
+   else exists w g, elected st = [[w]] /\ max_tally p w /\ tied_with p w g /\
+        ((g = [w] /\ tiebreaks st = []) \/
+         ((2 <= length g)%nat /\ exists kind l, s_tiebreak cfg = Some kind /\
+            tiebreaks st = [(g, singletons cand (w :: l))] /\ Permutation (w :: l) g))).
+
+(* (D) nobody reaches the threshold and the remaining candidates equal the unfilled seats *)
+Definition default_case (cfg : stv_cfg) (t : Q) (n : Z) (p : profile) (prev st : estate) (np : profile)
+  : Prop :=
+  (forall c, In c (cands p) -> tally c (ballots p) < t) /\
+  Z.of_nat (length (cands p)) = (s_m cfg - n)%Z /\
+  elected st = remaining prev /\ eliminated st = [[]] /\ tiebreaks st = [] /\
+  np = empty_profile cand.
+
+(* (X) otherwise one candidate x of minimal tally is eliminated; if several share the minimum the
+   tie is broken by first-place tallies in the INITIAL profile p0 (then at random), the resolution
+   is recorded and x is its last candidate *)
+Definition elim_case (cfg : stv_cfg) (t : Q) (n : Z) (p0 p : profile) (st : estate) (np : profile)
+  : Prop :=
+  (forall c, In c (cands p) -> tally c (ballots p) < t) /\
+  Z.of_nat (length (cands p)) <> (s_m cfg - n)%Z /\
+  exists x low, min_tally p x /\ elected st = [[]] /\ eliminated st = [[x]] /\
+    cands np = set_diff cand ceqb (cands p) [x] /\
+    ballots np = remove_cand_bs cand ceqb [x] true false (ballots p) /\
+    tied_with p x low /\
+    ((low = [x] /\ tiebreaks st = []) \/
+     ((2 <= length low)%nat /\ exists l, tiebreaks st = [(low, singletons cand (l ++ [x]))] /\
+        Permutation (l ++ [x]) low /\ sorted_by_tally p0 (l ++ [x]))).
 
 (* ---------- the invariant of the count ---------- *)
 
